@@ -9,6 +9,8 @@ LEVELS = ("interfaces", "fields", "methods")
 def _cls(r):
     if r.get("op") == "store":
         return r.get("cls")
+    if r.get("op") == "premarked":
+        return "premarked/%s/%s-%s" % (r.get("level"), r.get("side"), r.get("pre"))
     if r.get("op") == "lists":
         return "lists/%s/%s/%s%s" % (r.get("level"), "compatible" if r.get("compatible") else "incompatible", r.get("rel"),
                                      "/byte-identical" if r.get("same") else "")
@@ -16,7 +18,7 @@ def _cls(r):
 
 
 def _required():
-    req = []
+    req = ["premarked/%s/%s-%s" % (lv, a, b) for lv in ("fields", "methods") for a in ("client", "server") for b in ("client", "server")]
     for lv in LEVELS:
         for rel in ("identical", "identical/byte-identical", "prefix", "suffix", "interleaving", "disjoint"):
             req.append("lists/%s/compatible/%s" % (lv, rel))
@@ -196,6 +198,9 @@ def _sig(v):
         from vlib import diff_paths
         g = v.get("got")
         return "impl|store|" + ("panic" if isinstance(g, dict) and "panic" in g else ",".join(sorted(set(diff_paths(g, v.get("exp")))))[:200])
+    if rec.get("op") == "premarked":
+        g = v.get("got") or {}
+        return "impl|premarked|%s|%s" % (rec.get("level"), ",".join(k for k in ("found", "has_client", "has_server") if g.get(k) is False) or "other")
     f = {_coarse(x) for x in _faults(rec, v.get("got"))}
     return "impl|" + (",".join(sorted(f)) if f else "unexplained|" + str(rec.get("op")))
 
